@@ -31,6 +31,7 @@ struct Position
     bool pair = false, together = false;
     int target2 = 0, call2 = 0;
     long k2 = 0;
+    long index = -1;  // position number within the world's enumeration (replay of accumulated damage: prefix_upto)
 };
 
 static const char* call_name(int c) { return c == 0 ? "init" : (c == 1 ? "compute" : "eigenvectors"); }
@@ -69,7 +70,7 @@ struct Enumerator
                       pass == 0 ? "persistent-solver" : "fresh-solver", pos.pair ? (pos.together ? ", second fault armed together" : ", second fault in the recovery run") : "");
         v.detail = buf + detail;
         Json pj = Json::object();
-        pj.set("target", pos.target).set("call", pos.call).set("k", pos.k).set("type", pos.type).set("pass", pass);
+        pj.set("target", pos.target).set("call", pos.call).set("k", pos.k).set("type", pos.type).set("pass", pass).set("pos_index", pos.index);
         if (pos.pair) pj.set("pair", true).set("together", pos.together).set("target2", pos.target2).set("call2", pos.call2).set("k2", pos.k2);
         v.params = pj;
         out.viol.push_back(v);
@@ -89,9 +90,15 @@ struct Enumerator
         if (base.comp.res.threw || !base.comp.has_snap) return false;
         base.N[0][1] = base.comp.applyA;
         base.N[1][1] = base.comp.applyB;
-        base.N[0][2] = base.comp.read_applyA;
-        base.N[1][2] = base.comp.read_applyB;
         base.events = R.ctx.nevents - e0;
+        {
+            // applications made by a plain eigenvectors() read (the faulted accessor call of the enumeration is a plain read too)
+            Snapshot plain;
+            OpRecord rr;
+            R.take_snapshot(plain, -1, nullptr, &rr);
+            base.N[0][2] = rr.read_applyA;
+            base.N[1][2] = rr.read_applyB;
+        }
         if (base.init.san_reports || base.comp.san_reports) return false;
         return true;
     }
@@ -346,6 +353,13 @@ RunOutput run_fault(const Plan& plan, const RunOpts&)
                     }
                     positions.push_back(p);
                 }
+            }
+            for (size_t i = 0; i < positions.size(); i++) positions[i].index = (long) i;
+            // replay of damage that accumulated in the persistent solver: the enumeration up to and including that position
+            if (!plan.params.has("k") && plan.params.has("prefix_upto"))
+            {
+                const size_t keep = (size_t) std::max<long>(0, (long) plan.params.geti("prefix_upto", 0)) + 1;
+                if (positions.size() > keep) positions.resize(keep);
             }
             out.stats.add(exhaustive ? "worlds.exhaustive" : "worlds.strided");
             const int only_pass = (int) plan.params.geti("pass", -1);
